@@ -21,6 +21,25 @@ import lib
 import sem
 
 HEADER = """
+@guppy.struct
+class Cn:
+    c: int
+
+    @guppy
+    def __neg__(self: "Cn") -> "Cn":
+        result("neg", self.c)
+        return Cn(0 - self.c - 1)
+
+    @guppy
+    def __add__(self: "Cn", other: int) -> "Cn":
+        result("add", other)
+        return Cn(self.c + other * 2)
+
+    @guppy
+    def bump(self: "Cn", d: int) -> int:
+        result("bump", d)
+        return self.c + d
+
 @guppy
 def h0(v: int) -> int:
     result("h0", v)
@@ -59,7 +78,9 @@ INT_FORMS = ["({I} + {I})", "({I} // 3 + {I})", "({I} - {I} * {I})", "({I} if {B
              # a variable read before a later `:=` rebinds it in the same expression (defect repaired in b0ab4a7)
              "((w := {I}) + w + (w := {I}) + w)",
              # two operands that are built early, the first with a call outside its hoisted part (seeded C05_m_n)
-             "(((w := {I}) + h0(70)) * ((h0(80) if {B} else 9) + {I}))"]
+             "(((w := {I}) + h0(70)) * ((h0(80) if {B} else 9) + {I}))",
+             # user-defined operators and methods: receiver, then arguments, then the call (once)
+             "(Cn({I}) + {I}).c", "Cn({I}).bump({I})", "(-Cn({I})).c", "(Cn(h0(60)) + ({I} if {B} else 2)).bump({I})"]
 BOOL_FORMS = ["{I} < {I}", "{I} < {I} < {I}", "{I} <= {I} < {I} <= {I}", "({B} and {B})", "({B} or {B})",
               "({B} and {B} or {B})", "(not {B})", "({B} if {B} else {B})", "hb({I})", "{I} == {I}",
               "({B} and {I} < {I} < {I})"]
